@@ -84,7 +84,7 @@ func (e *Engine) CheckRelationTuple(ctx context.Context, r *relationTuple, restD
 		restDepth = globalMaxDepth
 	}
 
-	resultCh := make(chan checkgroup.Result)
+	resultCh := make(chan checkgroup.Result, 1)
 	go e.checkIsAllowed(ctx, r, restDepth, false)(ctx, resultCh)
 	select {
 	case result := <-resultCh:
